@@ -820,7 +820,15 @@ def _shard(args):
             "vs": vs, "sample": sample, "expected": expected}
 
 
+def _activate():
+    # the stubs hand negative results to the C register file (compat_py23.h): use the extensions rebuilt
+    # from the working tree, not the in-place build products
+    from mc import native
+    native.activate(["JitCore_x86"])
+
+
 def run(ctx):
+    _activate()
     tier = "quick" if ctx.quick else "thorough"
     nsh = 16 if ctx.quick else 64
     shards = []
@@ -873,6 +881,7 @@ def run(ctx):
 
 
 def replay(case):
+    _activate()
     fam = case["fam"]
     p = case["p"]
     c = FAMILIES[fam][1](harness(), case["fn"], p)
